@@ -70,6 +70,9 @@ type Opts struct {
 	PNullable  float64            // probability of making a typed subject nullable (default 0.15)
 	PDefault   float64            // probability of a default on an optional property (default 0.25)
 	PAddProps  float64            // probability of additionalProperties on an object (default 0.2)
+	DescPool   []string           // description texts (with Descs)
+	Titles     []string           // title texts
+	Names      []string           // property-name pool (default: plain ASCII names)
 }
 
 // Gen is a random schema generator.
@@ -166,7 +169,14 @@ func (g *Gen) Subject(depth int) *Schema {
 		}
 	}
 	if g.O.Descs && r.Chance(0.3) {
-		s.Desc = PickOf(r, Descriptions)
+		pool := Descriptions
+		if g.O.DescPool != nil {
+			pool = g.O.DescPool
+		}
+		s.Desc = PickOf(r, pool)
+	}
+	if g.O.Titles != nil && r.Chance(0.2) {
+		s.Title = PickOf(r, g.O.Titles)
 	}
 	return s
 }
@@ -187,7 +197,11 @@ func (g *Gen) defSubject(depth int) *Schema {
 	case 3:
 		return g.Enum()
 	case 4:
-		return g.Number()
+		n := g.Number()
+		if !g.O.Hazard {
+			n.MultipleOf = nil // F24: named number + multipleOf does not compile
+		}
+		return n
 	default:
 		return g.Array(depth + 1)
 	}
@@ -232,8 +246,12 @@ var IntLimitPool = []float64{
 	-129, -128, -127, 126, 127, 128, 254, 255, 256,
 	-32769, -32768, -32767, 32766, 32767, 32768, 65534, 65535, 65536,
 	-2147483649, -2147483648, -2147483647, 2147483646, 2147483647, 2147483648, 4294967294, 4294967295, 4294967296,
-	-9223372036854775808, 9223372036854775807, 18446744073709551615, 0, 1, -1,
+	-9223372036854775808, 0, 1, -1,
 }
+
+// IntLimitHazard holds bounds at or beyond 2^63: as float64 they are outside int64 and the tool's int64()
+// conversion wraps (recorded finding int64-bound-overflow).
+var IntLimitHazard = []float64{9223372036854775807, 18446744073709551615, -9223372036854777856}
 
 func (g *Gen) bounds(s *Schema, pool []float64) {
 	r := g.R
@@ -298,6 +316,9 @@ func (g *Gen) Integer() *Schema {
 		pool := smallInts
 		if g.O.IntLimits && r.Chance(0.7) {
 			pool = IntLimitPool
+			if g.O.Hazard && r.Chance(0.3) {
+				pool = append(append([]float64{}, IntLimitPool...), IntLimitHazard...)
+			}
 		}
 		if g.O.Hazard && r.Chance(0.15) {
 			pool = fracs
@@ -329,9 +350,11 @@ func (g *Gen) Number() *Schema {
 
 // Enum value pools.
 var (
-	EnumStrings = []string{"red", "green", "blue", "Red", "dark red", "x", "1", "true", "null", "é"}
-	EnumInts    = []int64{0, 1, 2, 3, 7, -1, 42, 100}
-	EnumNums    = []string{"0.5", "1.5", "2", "-3.25", "10", "0"}
+	EnumStrings = []string{"red", "green", "blue", "amber", "dark red", "x", "1", "true", "null", "é"}
+	// EnumStringsHazard adds values whose constant names collide after identifier normalisation (F26).
+	EnumStringsHazard = []string{"red", "Red", "dark red", "dark-red", "a b", "a-b", "x"}
+	EnumInts          = []int64{0, 1, 2, 3, 7, -1, 42, 100}
+	EnumNums          = []string{"0.5", "1.5", "2", "-3.25", "10", "0"}
 )
 
 // Enum makes an enum schema of a random kind.
@@ -348,8 +371,12 @@ func (g *Gen) Enum() *Schema {
 		if r.Chance(0.7) {
 			s.Types = []string{"string"}
 		}
-		for _, i := range r.Perm(len(EnumStrings))[:n] {
-			s.Enum = append(s.Enum, EnumStrings[i])
+		pool := EnumStrings
+		if g.O.Hazard && r.Chance(0.3) {
+			pool = EnumStringsHazard
+		}
+		for _, i := range r.Perm(len(pool))[:n] {
+			s.Enum = append(s.Enum, pool[i])
 		}
 	case 1:
 		s.Types = []string{"integer"}
@@ -419,9 +446,16 @@ func (g *Gen) Object(depth int, root bool) *Schema {
 	if root {
 		n = 2 + r.IntN(4)
 	}
-	perm := r.Perm(len(propNames))
+	names := propNames
+	if g.O.Names != nil {
+		names = g.O.Names
+	}
+	perm := r.Perm(len(names))
+	if n > len(names) {
+		n = len(names)
+	}
 	for i := 0; i < n; i++ {
-		name := propNames[perm[i]]
+		name := names[perm[i]]
 		p := g.Subject(depth)
 		s.Props = append(s.Props, Prop{name, p})
 		if r.Chance(0.5) {
